@@ -17,17 +17,17 @@ Rule-following engines use only SV_REF/V_REF in traits()/variables() because rul
 Every accepted package is then passed to dag.Construct, version.current, schedule.build and schedule.periodics
 (Clock instead of the reactor, fake dawgie.db.targets, graph rendering stubbed) and must not raise.
 Events-only packages are generated in the classic style only: with registry-style scanning (base/auto) a package
-without Algorithm/Analyzer/Regression classes is invisible to the scanner, to the gate and to the pipeline alike.
+without Algorithm/Analyzer/Regression classes is invisible to the scanner, to the gate and to the pipeline alike
+(observed: such a package is neither verified nor loaded).  For the same reason the fault "algorithm class without the
+DAWGIE base type" is injected under the base style only into packages that keep another genuine algorithm class.
 '''
 
 import itertools
 import json
 import os
 import random
-import shutil
 import subprocess
 import sys
-import tempfile
 import time
 
 REPO = os.environ.get('VERIF_REPO', '/repo')
@@ -57,8 +57,9 @@ BOUND = (
     'generated engine trees with <= 3 packages and <= 4 algorithms: every non-empty subset of {task, analysis, '
     'regress} x with/without events in one package x 3 package styles, events-only packages, five multi-package '
     'dependency shapes (chain, diamond with feedback, shared input, same-kind pair, 2x2 values); every single fault of '
-    '39 kinds at every applicable position of the base engines (quick: one base engine, ~230 packages; thorough: all '
-    'multi-package and six single-package base engines in all styles, ~2500 packages); CLI exit status for a sample'
+    '39 kinds at every applicable position of the base engines (quick: one base engine, 231 packages; thorough: all '
+    'multi-package, the events-only and nine single-package base engines in all styles, ~2800 packages); CLI exit '
+    'status for a sample (5 quick / ~45 thorough)'
 )
 
 # fault kind -> clause
@@ -207,8 +208,13 @@ def fault_positions(spec):
                     out.append((f, [pkg, k]))
     for a in spec['algs']:
         aid = G.alg_id(a)
+        # registry-style scanning (base/auto) only sees packages that define a genuine Algorithm/Analyzer/Regression
+        # class: a package whose only algorithm lost its base type is invisible to gate and pipeline alike, so the
+        # fault is injected under 'base' only where a sibling class keeps the package visible
+        siblings = sum(1 for b in spec['algs'] if b['pkg'] == a['pkg'])
+        typed = style == 'classic' or (style == 'base' and siblings > 1)
         for f in ('no_name', 'no_inputs', 'no_svs_method', 'no_run', 'dot_alg_name', 'no_state_vectors') + (
-            ('alg_base',) if style != 'auto' else ()
+            ('alg_base',) if typed else ()
         ):
             out.append((f, [aid]))
         for svn, vals in a['svs']:
@@ -449,8 +455,12 @@ def run(tier: str, seed: int) -> dict:
             built += 1
             if err:
                 note('C16.accepted.schedulable', 'unschedulable:' + _sig_tail(spec), {'spec': spec, 'how': 'inproc'}, err, 'Construct, build and periodics succeed')
+    timeouts = 0
     for spec, via_verify, rc in procs:
         f = _fault(spec)
+        if rc == 'timeout':  # an overloaded machine is not a verdict of the gate
+            timeouts += 1
+            continue
         if (rc == 0) != (f is None):
             note(
                 'C16.cli',
@@ -474,6 +484,7 @@ def run(tier: str, seed: int) -> dict:
         ),
         'exhaustive': True,
         'exhaustive_part': 'the listed base engines x every fault kind x every applicable position (nothing sampled except the CLI runs and, in thorough, 3 seeded extra base engines)',
+        'cli_timeouts': timeouts,
         'samples': [specs[0], specs[n_lawful - 1], specs[n_lawful], specs[-1]],
         'violations': out,
         'clauses': CLAUSES,
